@@ -143,6 +143,34 @@ def shift_register_form(rep, c, env, inp):
                  f"value is {ir.show(rv)[:120]}", wrong=wrong)
 
 
+def synchroniser_stage(f, name):
+    """The register `name` of function f is a stage of the input synchroniser: it is loaded (in the sync domain) from the pin
+    input `<pin>.i` or from a local that carries the pin input / an earlier stage, and from nothing else."""
+    chain = set()
+
+    def from_pin(e):
+        while isinstance(e, ast.Subscript):
+            e = e.value
+        if isinstance(e, ast.Attribute) and e.attr == "i":
+            return True
+        if isinstance(e, ast.Call) and isinstance(e.func, ast.Name) and e.func.id == "Cat" and e.args:
+            return all(from_pin(a) for a in e.args)
+        if isinstance(e, (ast.GeneratorExp, ast.ListComp)):
+            return from_pin(e.elt)
+        return isinstance(e, ast.Name) and e.id in chain
+    stages = {n.targets[0].id for n in ast.walk(f.node) if isinstance(n, ast.Assign) and len(n.targets) == 1 and
+              isinstance(n.targets[0], ast.Name) and isinstance(n.value, ast.Call) and ast.unparse(n.value.func) in ("Signal", "Signal.like") and
+              any(k.arg == "reset_less" for k in n.value.keywords)}
+    for _ in range(4):
+        for n in ast.walk(f.node):
+            if isinstance(n, ast.Assign) and len(n.targets) == 1 and isinstance(n.targets[0], ast.Name) and n.targets[0].id not in stages:
+                if from_pin(n.value) or (isinstance(n.value, ast.Name) and n.value.id in stages):
+                    chain.add(n.targets[0].id)
+    loads = [n for n in ast.walk(f.node) if isinstance(n, ast.Call) and isinstance(n.func, ast.Attribute) and n.func.attr == "eq" and
+             isinstance(n.func.value, ast.Name) and n.func.value.id == name]
+    return name in stages and bool(loads) and all(len(n.args) == 1 and from_pin(n.args[0]) for n in loads)
+
+
 def run(rep, idx, tier):
     rep.explanation = EXPLANATION
     rep.assume("A2", "A3", "A4", "A7")
@@ -157,7 +185,7 @@ def run(rep, idx, tier):
     # input_stages cycles either way); the output storage register is not
     oa = output_action_class(idx)
     _glue.reset_discipline(rep, "C16.6", idx, ["gpio:Peripheral", oa if oa is not None else "gpio:Peripheral.Output._FieldAction"],
-                           allowed=[("Peripheral", "pin_i_sync_ff")])
+                           allowed=[("Peripheral", "pin_i_sync_ff")], allowed_role=synchroniser_stage)
     _glue.write_once_handles(rep, "C16.6", idx, "gpio:Peripheral")
     _glue.param_refusals(rep, "C16.5", idx, only=["gpio:Peripheral.__init__"])
     c = get_ctx(idx, "gpio:Peripheral.elaborate")
@@ -196,7 +224,10 @@ def run(rep, idx, tier):
     # ---- C16.1 synchroniser chain ------------------------------------------------------------
     folds = [f for f in c.t.folds.values() if c.norm(f.init) == c.parse("pin.i", env)]
     inp = c.drivers_of(c.parse("INPUT.f.pin[n].r_data", env))
-    if not inp:
+    if not inp and c.drivers_elsewhere(c.parse("INPUT.f.pin[n].r_data", env)):
+        rep.unk("C16.1", site, "Input field r_data", "driven in another loop than the per-pin loop the rule follows; that both loops range over "
+                "the same pins is not decided")
+    elif not inp:
         rep.bad("C16.1", site, "Input field r_data", "the Input register field of the pin is never driven")
     elif len(folds) == 0:
         shift_register_form(rep, c, env, inp)
@@ -236,12 +267,15 @@ def run(rep, idx, tier):
         if len(sws) != 1 and any(x[0] == 'opaque' for s in c.t.switches.values() for x in ir.walk(c.norm(s))):
             rep.unk("C16.2", site, "Switch on the pin's mode field", "a Switch decodes an intermediate wire whose width is not verified "
                     f"against the mode field: {[ir.show(c.norm(s))[:80] for s in c.t.switches.values()]}")
-        elif len(sws) != 1:
+        elif len(sws) > 1:
             rep.bad("C16.2", site, "Switch on the pin's mode field", f"found {len(sws)} Switch statements on {ir.show(subj)}")
         else:
-            sid = sws[0]
+            sid = sws[0] if sws else None
 
             def case(member):
+                if sid is None:
+                    # no Switch: the mode is decoded with comparisons `mode == PinMode.X` (same atoms as the Case patterns)
+                    return ('formula', c.eng._b(c.norm(('cmp', '==', subj, ('const', members[member]))), True))
                 return ('formula', c.eng.frame_formula(('case', sid, (('const', members[member]),), 0)))
             # the four members cover every value of the 2-bit mode field (class PinMode(enum.Enum, shape=unsigned(2)))
             pm = idx.find_class("gpio:PinMode")
@@ -249,6 +283,17 @@ def run(rep, idx, tier):
             cover = ('formula', dl.f_or(*[case(mem)[1] for mem in MODE_TABLE])) if two_bits and sorted(members.values()) == [0, 1, 2, 3] else None
             for col, tgt in ((0, "pin.o"), (1, "pin.oe"), (2, "self.alt_mode[n]")):
                 ds = c.drivers_of(c.parse(tgt, env))
+                if not ds and col == 2 and c.drivers_of(c.parse("self.alt_mode")):
+                    ds = c.bit_view(c.parse("self.alt_mode"), n)        # vector-wide assignment: this pin's bit of it
+                    if ds is None:
+                        rev = [d_ for d_ in c.drivers_of(c.parse("self.alt_mode"))
+                               if any(x[0] == 'call' and x[1] == ('name', 'reversed') for x in ir.walk(c.norm(d_.value)))]
+                        if rev:
+                            rep.bad("C16.2", site, f"{tgt} per mode", "alt_mode is a concatenation over the pins in reversed order: bit n reports the "
+                                    "mode of pin pin_count-1-n, not of pin n", lines=[d_.lineno for d_ in rev])
+                        else:
+                            rep.unk("C16.2", site, f"{tgt} per mode", "alt_mode is assigned as a whole and the value cannot be projected onto one pin's bit")
+                        continue
                 if not ds and col < 2:
                     rep.bad("C16.2", site, f"{tgt} per mode", "never driven")
                     continue
@@ -262,6 +307,10 @@ def run(rep, idx, tier):
     # ---- C16.3 set / clr decode ----------------------------------------------------------------
     for which in ("set", "clr"):
         ds = c.drivers_of(c.parse(f"OUTPUT.f.pin[n].{which}", env))
+        if not ds and c.drivers_elsewhere(c.parse(f"OUTPUT.f.pin[n].{which}", env)):
+            rep.unk("C16.3", site, f"Output field {which} input", "driven in another loop than the per-pin loop the rule follows; that both loops "
+                    "range over the same pins is not decided")
+            continue
         if not ds or {d.domain for d in ds} != {"comb"}:
             rep.bad("C16.3", site, f"Output field {which} input", "must be driven combinationally from the SetClr write")
             continue
